@@ -394,7 +394,7 @@ pub fn check_all(sim: &Sim, when: &'static str) {
 }
 
 /// remove() / replace() / map() from outside the loop, followed (protocol) by update()
-pub fn tr_op(sim: &Sim, id: Id, op: &Op, in_cb: bool) {
+pub fn tr_op(sim: &Sim, id: Id, op: &Op, in_cb: bool, lazy: bool) {
     let Some((disp, inserted, enabled, in_proc)) = ({
         let st = sim.st.borrow();
         st.srcs.get(&id).and_then(|s| match &s.k {
@@ -501,7 +501,12 @@ pub fn tr_op(sim: &Sim, id: Id, op: &Op, in_cb: bool) {
         _ => {}
     }
     drop(disp);
-    // protocol: a re-registration is requested after each change
+    // protocol: a re-registration is requested after each change - right away, or (lazy) by
+    // whatever operation on the parent comes next
+    if lazy {
+        sim.probe("transient_lazy_change");
+        return;
+    }
     if inserted && enabled && !matches!(op, Op::TrMap(_)) {
         crate::ops::exec_op(sim, &Op::Update(id), in_cb);
     }
